@@ -70,6 +70,15 @@ func FromReader(reader io.Reader) (dialogue *Dialogue, err error) {
 	if len(syntaxErrors.messages) != 0 {
 		return nil, fmt.Errorf("failed to parse dialogue: %s", syntaxErrors.messages[0])
 	}
+	// the dialogue rule does not end with EOF: input that cannot start another node would be dropped silently
+	for next := stream.LT(1); next.GetTokenType() != antlr.TokenEOF; next = stream.LT(1) {
+		switch next.GetTokenType() {
+		case parser.YarnSpinnerLexerNEWLINE, parser.YarnSpinnerLexerINDENT, parser.YarnSpinnerLexerDEDENT:
+			stream.Consume() // trailing blank or whitespace-only lines
+		default:
+			return nil, fmt.Errorf("failed to parse dialogue: line %d:%d unexpected input after the last node", next.GetLine(), next.GetColumn())
+		}
+	}
 	antlr.ParseTreeWalkerDefault.Walk(listener, parseTree)
 	if listener.dialogue == nil || len(listener.dialogue.Nodes) == 0 {
 		return nil, errors.New("failed to parse dialogue: no node found")
